@@ -2895,7 +2895,7 @@ class Order:
         yield from self.order_by.iter_subtree_preorder()
 
     def iter_children(self) -> Iterable[ColExpr]:
-        yield from self.order_by.iter_children()
+        yield self.order_by
 
     def map_subtree(self, g: Callable[[ColExpr], ColExpr]) -> Order:
         new = copy.copy(self)
